@@ -265,7 +265,7 @@ pub fn gen_case(rng: &mut Rng, profile: Profile, blob: bool, max_ops: u64) -> Ca
         cache_kb: *rng.pick(&[0u64, 1, 8192]),
         fd_cap: *rng.pick(&[0u64, 1, 2, 64]),
         filter_seed: if profile == Profile::Filter || (profile == Profile::All && rng.chance(1, 4)) { Some(rng.below(100_000)) } else { None },
-        blob: if blob { if profile == Profile::Reloc { Some((*rng.pick(&[0u32, 8]), *rng.pick(&[40u64, 100, 200]))) } else { Some((*rng.pick(&[0u32, 1, 8, 12, 1000]), *rng.pick(&[1u64, 64, 1024]))) } } else { None },
+        blob: if blob { if profile == Profile::Reloc { Some((*rng.pick(&[0u32, 8]), *rng.pick(&[40u64, 100, 200, 1024, 4096]))) } else { Some((*rng.pick(&[0u32, 1, 8, 12, 1000]), *rng.pick(&[1u64, 64, 1024]))) } } else { None },
         nkeys,
         key_seed: rng.next() % 1_000_000,
         salt: 0,
@@ -279,14 +279,23 @@ pub fn gen_case(rng: &mut Rng, profile: Profile, blob: bool, max_ops: u64) -> Ca
         let k = rng.below(nk) as usize;
         let op = match profile {
             Profile::Reloc => match r {
-                0..=349 => Op::Insert(k, *rng.pick(&[6usize, 40, 40])),
-                350..=399 => Op::Remove(k),
-                400..=599 => Op::Flush(Wm::Zero),
-                600..=699 => Op::Major(1, Wm::Zero),
-                700..=799 => Op::Major(u64::MAX, *rng.pick(&[Wm::Zero, Wm::Zero, Wm::Top])),
-                800..=919 => Op::DropRange(Bd::I(k), Bd::I(k)),
-                920..=959 => Op::Leveled(1, 64, Wm::Zero),
-                960..=979 => Op::SnapOpen,
+                0..=249 => Op::Insert(k, *rng.pick(&[6usize, 40, 40])),
+                250..=279 => Op::Remove(k),
+                280..=449 => Op::Flush(Wm::Zero),
+                450..=509 => Op::Major(1, Wm::Zero),
+                510..=629 => Op::Major(u64::MAX, *rng.pick(&[Wm::Zero, Wm::Zero, Wm::Top])),
+                630..=749 => Op::DropRange(Bd::I(k), Bd::I(k)),
+                750..=869 => {
+                    // ingested blobs carry the local seqno 0: several blob files then hold blobs of one key whose stored
+                    // seqnos do not order like their pointers (finding F9)
+                    let mut ks = BTreeSet::new();
+                    for _ in 0..(2 + rng.below(nk)) {
+                        ks.insert(rng.below(nk) as usize);
+                    }
+                    Op::Ingest(ks.into_iter().map(|k| (k, rng.chance(1, 8))).collect())
+                }
+                870..=939 => Op::Leveled(1, *rng.pick(&[1u64, 64]), Wm::Zero),
+                940..=964 => Op::SnapOpen,
                 _ => Op::Reopen,
             },
             Profile::Fifo => match r {
